@@ -34,6 +34,35 @@ CHECKS = {
    "Cursor lists (every token start/end, inside blanks and multi-line tokens, 0, end, beyond) tracked on seeds, soup, truncations and walks; clauses text-unchanged, within-output-on-boundary, same-offset-in-unchanged-token, beyond-end.",
    "Token correspondence input/output comes from the final token table (hook)."),
 }
+CHECKS.update({
+ "C02": ("model_checking", "TLC-decided re-scan equality (C02_Violations) on programs derived by TLC from Grammar.tla in 7 layout families, scanner cross-checked against Lexer.tla in the same traces",
+   "Programs are derivations of Grammar.tla (Gen.tla, TLC simulation) rendered with comments in every placement class, conditional directives around whole statements/declarations, tight/one-line/all-breaks/CRLF layouts; scan(input) = scan(output) up to the documented normalisations.",
+   "Both scans use the real scanner; C13_Agrees (Lexer.tla) is evaluated by TLC on the sampled inputs and outputs of the same run."),
+ "C05": ("model_checking", "model-based testing: structure marks emitted by the Gen.tla derivation are checked on the re-scanned output (C05_Violations)",
+   "The generator knows the first token of every statement / declaration member / closer and which construct opens its block; own-line and relative-depth expectations are evaluated for 6 layouts x 6 (begin_style, width, indentation) configurations.",
+   "Expectation table calibrated on the unchanged tree; else-if chains and case arms carry no expectation; known finding F9 (inline anonymous routines)."),
+ "C06": ("model_checking", "history checking: re-layouts of generated programs; IsRelayout precondition and equality decided by Session.tla",
+   "Each program x decoration is rendered with 3-6 further spacings (one line, random gaps incl. zero width, all breaks, CRLF+tabs); outputs must be identical.",
+   "Known finding F8 (space after a literal copied from the input) is excluded from the random layouts and probed separately."),
+ "C07": ("model_checking", "regions computed by Toggle.tla's recogniser from the scanned input must be reproduced byte for byte, and exactly those tokens (plus asm lines) may be verbatim",
+   "Regions between any two tokens of generated programs with 12 off / 5 on spellings incl. near misses, toggles in token soup and random walks.",
+   "asm instruction lines are identified by the parser's line types (hook)."),
+ "C12": ("model_checking", "MLString.tla value / indentation rule evaluated per literal (C12_Violations) on generated programs and seeds",
+   "Literals with 3 and 5 quotes, several bodies and indentations, in every expression position of the grammar, under 5 configurations.",
+   "Literal correspondence by ordinal among multi-line literals of input and output."),
+ "C16": ("model_checking", "CliModes.tla checked exhaustively by TLC; every final state replayed on the real binary in scratch directories",
+   "3 files x 8 content classes x 3 modes x 5 path forms with all per-file step orders; bug switches NO_SETLEN / NO_SEEK demonstrate non-vacuity; scenarios compare bytes, mtime/inode, exit status and stdout.",
+   "format(content) is the same binary's stdin->stdout result, as the property defines it."),
+ "C17": ("model_checking", "CliEnc.tla (UTF-8 / UTF-16 defined in TLA+) enumerates texts x stored forms x options x damages; bytes compared with the real binary (file mode and pipe)",
+   "The model computes the input bytes and the expected output bytes; legacy code pages and CJK encodings are covered with longer programs (codec tables trusted).",
+   "native encoding = UTF-8 on this platform."),
+ "C18": ("model_checking", "CliWorkers.tla: all interleavings (TLC); real batches compared file by file with solo runs; worker events validated by TraceWorkers.tla",
+   "NoStaleBytes / BatchEqualsSolo / ExitStatus hold on the model for every schedule; the NO_CLEAR switch yields the stale-buffer counterexample; recorded buffer lengths of real runs must satisfy the same invariant.",
+   "Real thread-pool schedules are sampled."),
+ "C19": ("model_checking", "CliConfig.tla checked exhaustively; stratified sample of final states replayed on the real binary",
+   "Ancestor walk, --config-file kinds, -C precedence (last wins), unknown keys and ill-typed values, error before any file is touched, equal effective configuration = equal bytes.",
+   "Three options (wrap_column, begin_style, use_tabs) stand for all; the probe program is sensitive to each."),
+})
 NA = {
 }
 ALL = [f"C{n:02d}" for n in range(1, 20)]
